@@ -770,4 +770,37 @@ func ruleEOF1(c *Ctx) {
 		})
 	}
 	c.Floor("places that introduce io.EOF", nEOF, 4)
+	// the boolean form of the same verdict: AtEOF (used by package json to answer io.EOF early) must be the
+	// identity test too — `err != nil` would turn any read failure into a clean end of stream
+	if f := p.Func("jsontext.(*decoderState).AtEOF"); f == nil || f.Body() == nil {
+		c.Undecide("jsontext.(*decoderState).AtEOF", "function missing")
+	} else {
+		info := f.Info()
+		okAll, nret := true, 0
+		InspectNoLit(f.Body(), func(nd ast.Node) bool {
+			r, ok := nd.(*ast.ReturnStmt)
+			if !ok || len(r.Results) != 1 {
+				return true
+			}
+			nret++
+			res := ast.Unparen(r.Results[0])
+			if tv, ok := info.Types[res]; ok && tv.Value != nil && tv.Value.String() == "false" {
+				return true
+			}
+			be, ok := res.(*ast.BinaryExpr)
+			identity := false
+			if ok && be.Op == token.EQL {
+				for _, side := range []ast.Expr{be.X, be.Y} {
+					if o := IdentOrSelObj(info, side); o != nil && o.Pkg() != nil && o.Pkg().Path() == "io" && o.Name() == "ErrUnexpectedEOF" {
+						identity = true
+					}
+				}
+			}
+			if !identity {
+				okAll = false
+			}
+			return true
+		})
+		c.Oblige("ateof-own-sentinel", f.Pos(), nret > 0 && okAll, "AtEOF does not answer with an identity test against io.ErrUnexpectedEOF: a transient read error would be reported to callers as a clean end of stream")
+	}
 }
